@@ -182,6 +182,7 @@ def run(rep, tier):
     # ---- free measurements come out both ways; other entry points; CLI
     M = 60 if quick else 1500
     other_paths(rep, svh, rng, gates, names, M, NS)
+    folded_reference_samples(rep, svh, rng, gates, names, 80 if quick else 1500)
     svh.close()
     rep.cov['rule'] = ('random noiseless circuits over every unitary gate/alias, M/MX/MY/MR*/R*, MXX/MYY/MZZ, MPP, SPP, MPAD, feedback, '
                        'sweep, REPEAT, `!`, repeated/overlapping targets, indices straddling 64/128/256; probes after random '
@@ -239,6 +240,75 @@ def other_paths(rep, svh, rng, gates, names, M, NS):
     for (nm, text, r), verdict in zip(meta, cons_out):
         if verdict != '1':
             rep.violation(nm, 'wrong-result', text, 'record is not an outcome the circuit can produce', None, r)
+
+
+def folded_reference_samples(rep, svh, rng, gates, names, count):
+    """reference samples of circuits with long REPEAT blocks (the loop-folding path: ReferenceSampleTree, the record replayed for
+    skipped iterations) and feedback that looks back across the loop: the reported record must be an outcome of the unrolled circuit"""
+    from checks import c06
+    I, T = stimtext.Instr, stimtext.T
+    spec_in = []
+    cases = []
+    for k in range(count):
+        if k % 4 == 3:
+            # pre-loop results that differ from the periodic content; feedback after the loop with a long lookback
+            n = rng.choice([2, 3])
+            per = rng.choice([1, 1, 2])
+            pre = [I('X', [], [T('q', 0)])] if rng.random() < 0.7 else []
+            pre += [I('M', [], [T('q', 0)]) for _ in range(rng.choice([1, 2, 3]))]
+            lb = [I(rng.choice(['M', 'MR', 'MX']), [], [T('q', rng.randrange(1, n))]) for _ in range(per)]
+            if rng.random() < 0.3:
+                lb.insert(0, I(rng.choice(['H', 'X', 'S']), [], [T('q', rng.randrange(1, n))]))
+            reps = rng.choice([10, 11, 20, 37, 100, 300])
+            npre = sum(len(i.targets) for i in pre if i.name == 'M')
+            post = []
+            for _ in range(rng.choice([1, 2, 3])):
+                post.append(I(rng.choice(['CX', 'CY', 'CZ']), [], [T('rec', rng.randint(1, min(per * reps + npre, 2 * per + 3))), T('q', rng.randrange(n))]))
+            post.append(I('M', [], [T('q', q) for q in range(n)]))
+            body = pre + [I('REPEAT', body=lb, reps=reps)] + post
+            if rng.random() < 0.3:
+                body = [I('REPEAT', body=body, reps=rng.choice([2, 3]))]
+        else:
+            body = c06.strip_noise_and_annotations(c06.loop_case(rng, gates, names), names)
+            body = [i for i in body if not (i.name.startswith('M') and i.args)]
+        try:
+            flat = stimtext.flatten(body, limit=30000)
+        except Exception:
+            continue
+        nq = max(stimtext.num_qubits(body), 1)
+        ir = stimtext.to_spec(flat, names, nsweep=0, noise=False, with_annotations=False)
+        spec_in.append(stimtext.spec_cmd(nq, ir))
+        cases.append(body)
+    spec_out = core.run_svm_sharded(spec_in, timeout=3000)
+    cons_in = []
+    meta = []
+    for body, so in zip(cases, spec_out):
+        if so.startswith('EXN'):
+            continue
+        sp = stimtext.parse_spec_out(so)
+        text = stimtext.circuit_text(body)
+        out = svh.request('refsample', [rng.choice([64, 128, 256])], text)
+        recs = []
+        if len(out) < 3 or out[-1].startswith('ERR'):
+            rep.violation('ReferenceSampleTree::from_circuit_reference_sample', 'reject-valid', text, (out[-1] if out else '')[:300])
+        else:
+            recs.append(('TableauSimulator::reference_sample_circuit', out[0][4:]))
+            recs.append(('ReferenceSampleTree::from_circuit_reference_sample (loop folding)', out[1][5:]))
+        rc, so_, se_ = core.run_stim(['sample', '--shots', '1', '--seed', str(rng.randrange(1 << 30))], text.encode())
+        if rc == 0:
+            recs.append(('stim sample --shots 1', so_.decode().strip()))
+        reps = max([i.reps for i in body if i.name == 'REPEAT'] + [0])
+        rep.count(('c01-folded', text), nontrivial=reps >= 10)
+        for nm, r in recs:
+            if len(r) != len(sp['rec']):
+                rep.violation(nm, 'wrong-result', text, 'record length', len(sp['rec']), len(r))
+                continue
+            cons_in.append('consistent %d ; %s' % (sp['ncoins'], ' ; '.join('%s=%s' % (fmt_form(f), b) for f, b in zip(sp['rec'], r))))
+            meta.append((nm, text, r))
+    cons_out = core.run_svm_sharded(cons_in, timeout=3000)
+    for (nm, text, r), verdict in zip(meta, cons_out):
+        if verdict != '1':
+            rep.violation(nm, 'wrong-result', text, 'reference sample is not an outcome the circuit can produce', None, r[:400])
 
 
 def replay(path):
